@@ -78,6 +78,99 @@ def run_hp(kind, cls, hp):
     return False, [], type(e).__name__
 
 
+# ---- live objects: hyperparameters assigned (accepted / rejected), read back and used on ONE kernel object
+
+LIVE_GOOD = [0.5, 1.0, 2.0, 0.125, 3.0, 1e-3, 1e3, 0.75, 1.5]
+LIVE_BAD = [0.0, -1.0, -0.5, float("nan"), float("inf"), float("-inf"), -1e-300]
+
+
+def admissible(hp):
+  return all(h == h and not math.isinf(h) and h > 0 for h in hp)
+
+
+def build_kernel(kind, cls, hp):
+  import libsigopt.compute.covariance as cv
+  from libsigopt.compute.multitask_covariance import MultitaskTensorCovariance
+  if kind == "radial":
+    return getattr(cv, cls)(numpy.array(hp, dtype=float))
+  return MultitaskTensorCovariance(numpy.array(hp, dtype=float), getattr(cv, cls[0]), getattr(cv, cls[1]))
+
+
+def probe_points(ncol):
+  """dyadic probe points (last column: a task value in (0, 1] when the kernel is a tensor kernel - any column will do for a radial one)"""
+  x = numpy.array([[0.5 * (1 + (i + 2 * j) % 3) * (-1) ** (i + j) for j in range(ncol)] for i in range(3)], dtype=float)
+  z = numpy.array([[0.25 * (1 + (2 * i + j) % 4) for j in range(ncol)] for i in range(3)], dtype=float)
+  x[:, -1], z[:, -1] = [0.25, 0.5, 1.0], [1.0, 0.25, 0.25]
+  return x, z
+
+
+def computes_as_read_back(k, kind, cls, x, z):
+  """the live kernel gives, bit for bit, what a kernel FRESHLY BUILT from the hyperparameters it reads back gives (all three entry points)"""
+  try:
+    fresh = build_kernel(kind, cls, [float(v) for v in k.hyperparameters])
+  except Exception:
+    return False
+  nz = numpy.array([0.0, 0.5, 1.0])
+  return all(numpy.array_equal(a, b, equal_nan=True) for a, b in (
+    (k.covariance(x, z), fresh.covariance(x, z)), (k.build_kernel_matrix(z, x), fresh.build_kernel_matrix(z, x)),
+    (k.build_kernel_matrix(z, noise_variance=nz), fresh.build_kernel_matrix(z, noise_variance=nz))))
+
+
+def run_live(kind, cls, hp0, ops):
+  """ops on one live kernel: ["set", vector] (HyperparameterInvalidError caught - an optimiser stepping outside the admissible region),
+  ["get"], ["probe"] (k(x, x) and the comparison with a freshly built kernel).  Any other exception propagates."""
+  from libsigopt.compute.covariance_base import HyperparameterInvalidError
+  k = build_kernel(kind, cls, hp0)
+  x, z = probe_points(len(hp0) - 1)
+  outs = []
+  for op in ops:
+    if op[0] == "set":
+      try:
+        k.hyperparameters = numpy.array([float(v) for v in op[1]], dtype=float)
+        outs.append(["set", True])
+      except HyperparameterInvalidError:
+        outs.append(["set", False])
+    elif op[0] == "get":
+      outs.append(["get", [float(v) for v in k.hyperparameters]])
+    else:
+      outs.append(["probe", float(k.covariance(x[:1], x[:1])[0]), bool(computes_as_read_back(k, kind, cls, x, z))])
+  return outs
+
+
+def gen_live(rng):
+  kind = rng.choice(["radial", "multi"])
+  cls = rng.choice(KERNELS) if kind == "radial" else (rng.choice(DIFF), rng.choice(DIFF))
+  n = rng.randint(2, 5) if kind == "radial" else rng.randint(3, 5)
+  good = lambda: [rng.choice(LIVE_GOOD) for _ in range(n)]
+  def bad():
+    v = good()
+    for _ in range(rng.choice([1, 1, 1, 2])):
+      v[rng.choice([0, 0, rng.randrange(n), n - 1])] = rng.choice(LIVE_BAD)
+    return v
+  ops = []
+  for _ in range(rng.randint(2, 7)):
+    c = rng.random()
+    ops.append(["set", bad()] if c < 0.35 else ["set", good()] if c < 0.55 else ["get"] if c < 0.8 else ["probe"])
+  if not any(o[0] == "set" and not admissible(o[1]) for o in ops):
+    ops.insert(rng.randrange(len(ops) + 1), ["set", bad()])
+  ops += [["probe"], ["get"]]
+  return kind, cls, good(), ops
+
+
+# the witness of C03_hyper_live_multitask_rejected_unchanged_refuted, replayed on the running class on every run, and its radial companion
+LIVE_FIXED = [
+  ("multi", ("C4RadialMatern", "SquareExponential"), [1.5, 0.5, 2.0, 0.25], [["set", [3.0, 1.0, 1.0, 0.0]], ["get"], ["probe"]]),
+  ("multi", ("SquareExponential", "C2RadialMatern"), [1.5, 0.5, 2.0, 0.25], [["set", [3.0, 0.5, -2.0, 0.25]], ["probe"], ["get"], ["set", [-1.0, 9.0, 9.0, 9.0]], ["get"]]),
+  ("radial", "C4RadialMatern", [1.5, 0.5, 2.0], [["set", [3.0, 1.0, 0.0]], ["get"], ["probe"], ["set", [3.0, float("nan"), 1.0]], ["probe"], ["get"]]),
+]
+
+
+def live_term(kind, hp0, ops, outs):
+  opl = C.listlit([f"(HSet {C.listlit(o[1], xlit)})" if o[0] == "set" else "HGet" if o[0] == "get" else "HProbe" for o in ops])
+  outl = C.listlit([f"(OSet {C.blit(o[1])})" if o[0] == "set" else f"(OGet {C.listlit(o[1], xlit)})" if o[0] == "get" else f"(OProbe {xlit(o[1])} {C.blit(o[2])})" for o in outs])
+  return f"{'CLiveRadial' if kind == 'radial' else 'CLiveMulti'} {C.listlit(hp0, xlit)} {opl} {outl}"
+
+
 def correspondence(ctx):
   n = ctx.n(400, 6000)
   rng = ctx.rng
@@ -98,14 +191,38 @@ def correspondence(ctx):
     if h not in seen:
       nontriv += 1
     seen.add(h)
+  nlive = 0
+  for kind, cls, hp0, ops in LIVE_FIXED + [gen_live(rng) for _ in range(ctx.n(250, 3000))]:
+    linp = dict(k=kind, cls=list(cls) if kind == "multi" else cls, hp=[repr(float(x)) for x in hp0], ops=[[o[0]] + ([[repr(float(v)) for v in o[1]]] if o[0] == "set" else []) for o in ops])
+    try:
+      outs = run_live(kind, cls, hp0, ops)
+    except Exception as e:
+      dis.append(dict(what=f"C03 live kernel object: a sequence of hyperparameter assignments raised {type(e).__name__}: {e}", kind="hyper", input=linp, observed=repr(e)))
+      continue
+    cases.append(live_term(kind, hp0, ops, outs))
+    meta.append((kind, cls, linp, None, outs))
+    nlive += 1
+    rej = sum(1 for o in outs if o[0] == "set" and not o[1])
+    key = f"live:{kind}:" + ("rejected-sets" if rej else "accepted-only")
+    dist[key] = dist.get(key, 0) + 1
+    h = C.canon_hash([kind, cls, linp])
+    if h not in seen and rej:
+      nontriv += 1
+    seen.add(h)
   bad = C.run_cases("C03", "From Coq Require Import List QArith Bool.\nFrom LV Require Import Model.Hyper.\nOpen Scope Q_scope.", "case", "check", cases)
   for i in bad:
     k, cls, hp, acc, rb = meta[i]
+    if isinstance(hp, dict):
+      dis.append(dict(what=f"C03 live kernel object, case {i}: what the object showed after a sequence of assignments / read-backs / uses differs from Model.Hyper "
+                           "(or a rejected vector was taken, a read-back is not what the kernel computes with)", kind="hyper", input=hp, observed=rb))
+      continue
     dis.append(dict(what=f"C03 hyperparameter case {i}: accept/reject or read-back differs from Model.Hyper", kind="hyper",
                     input=dict(k=k, cls=cls, hp=[repr(x) for x in hp]), observed=dict(accepted=acc, readback=rb)))
-  return dict(evaluations=n, distinct_nontrivial=nontriv,
+  return dict(evaluations=n + nlive, distinct_nontrivial=nontriv,
               rule="hyperparameter vectors (radial 2-5 entries, multitask 3-5) over magnitudes 1e-3..1e3 with one entry replaced in 55% of cases by "
-                   "0, negative, NaN, +-inf or +-1e-300; every vector goes through the real constructors; distinct by hash",
+                   "0, negative, NaN, +-inf or +-1e-300; every vector goes through the real constructors; LIVE objects: 2-7 assignments (35% inadmissible, "
+                   "error caught), read-backs and uses (k(x,x), all entry points against a freshly built kernel) on one kernel object, compared step by step with "
+                   "Model.Hyper; distinct by hash (live cases count when at least one assignment was rejected)",
               samples=[dict(kind=m[0], cls=m[1], hp=[repr(x) for x in m[2]], accepted=m[3]) for m in meta[:3]], distribution=dist, disagreements=dis)
 
 
@@ -127,6 +244,8 @@ def oracle(inp):
   kind = inp["kind"]
   def fail(what, observed, expected):
     return dict(signature=f"C03:{kind}:{what}", what=f"{kind}: {what}", input=inp, observed=observed, expected=expected, oracle="scalar closed form in plain Python")
+  if kind == "hyper" and inp.get("ops") is not None:
+    return live_hyper_oracle(inp, fail)
   if kind == "hyper":
     acc, rb, err = run_hp(inp["k"], inp["cls"] if inp["k"] == "radial" else tuple(inp["cls"]), [float(x) for x in inp["hp"]])
     hp = [float(x) for x in inp["hp"]]
@@ -149,6 +268,76 @@ def oracle(inp):
   st["noise"] = numpy.array(inp.get("noise", [0.0] * len(st["z"])), dtype=float)
   shift = numpy.array(inp.get("shift", [0.0] * (len(hp) - 1)))
   return live_object(inp, k, st, fail, lambda fl: radial_entry_points(k, cls, st["hp"], st["x"], st["z"], st["noise"], shift, fl, st["last"]))
+
+
+# Switch for the tensor kernel's behaviour described by C03_hyper_live_multitask_rejected_unchanged_refuted (a vector rejected for one of its length
+# scales has been taken in part).  The weakest reading of "rejected" / "read back as set" - an error is raised, the object never holds an inadmissible
+# value, it computes with what it reads back, an ACCEPTED vector reads back - holds there, so it is not reported; with the switch on, the stronger
+# reading "a rejected assignment leaves the object unchanged" is stated for the tensor kernel as well, under this signature.
+MULTITASK_REJECTED_SET_MUST_NOT_CHANGE = False
+MULTITASK_PARTIAL_SIG = "C03:hyper:multitask-rejected-assignment-partially-taken"
+
+
+def live_hyper_oracle(inp, fail):
+  """One live kernel object, plain-Python statement: an assignment is rejected (HyperparameterInvalidError) iff some entry is <= 0, NaN or infinite; an
+  accepted vector reads back; a REJECTED one is not taken - what is read back afterwards is admissible and, for a radial kernel, the last accepted
+  vector -; and at every moment the kernel computes with what it reads back: k(x,x) = read-back process variance, covariance = alpha*phi(r)."""
+  from libsigopt.compute.covariance_base import HyperparameterInvalidError
+  kk, cls = inp["k"], (inp["cls"] if inp["k"] == "radial" else tuple(inp["cls"]))
+  cur = [float(v) for v in inp["hp"]]
+  k = build_kernel(kk, cls, cur)
+  x, z = probe_points(len(cur) - 1)
+  def use(when):
+    rb = [float(v) for v in k.hyperparameters]
+    if not admissible(rb):
+      return fail(f"a live kernel holds inadmissible hyperparameters {when}", rb, "positive finite values")
+    if rb != cur:
+      return fail(f"hyperparameters do not read back as set {when}", rb, list(cur))
+    kxx = float(k.covariance(x[:1], x[:1])[0])
+    if kxx != cur[0]:
+      return fail(f"k(x,x) != process variance read back {when}", kxx, cur[0])
+    got = k.covariance(x, z)
+    for i in range(len(x)):
+      spec = dict(cls=cls, hp=cur) if kk == "radial" else dict(cls="multitask", phys=cls[0], task=cls[1], hp=cur)
+      from lib import gpgen
+      e = gpgen.kern(spec, [float(v) for v in x[i]], [float(v) for v in z[i]])
+      if not abs(float(got[i]) - e) <= 1e-9 * cur[0]:
+        return fail(f"covariance is not alpha*phi(r) of the hyperparameters read back {when}", float(got[i]), e)
+    return None
+  r = use("after construction")
+  if r:
+    return r
+  for j, op in enumerate(inp["ops"]):
+    if op[0] != "set":
+      r = use(f"(step {j}: {op[0]})")
+      if r:
+        return r
+      continue
+    vec = [float(v) for v in op[1]]
+    try:
+      k.hyperparameters = numpy.array(vec, dtype=float)
+      acc = True
+    except HyperparameterInvalidError:
+      acc = False
+    except Exception as e:
+      return fail("wrong exception type for invalid hyperparameters", type(e).__name__, "HyperparameterInvalidError")
+    if acc != admissible(vec):
+      return fail("invalid hyperparameters accepted" if acc else "valid hyperparameters rejected", dict(accepted=acc, vector=op[1]), dict(accepted=not acc))
+    if acc:
+      cur = vec
+      r = use("after an accepted assignment on a live object")
+    else:
+      rb = [float(v) for v in k.hyperparameters]
+      if kk == "multi" and admissible(rb) and rb != cur:
+        # neither the old vector nor the rejected one, but admissible: the partial take of the tensor kernel (see the switch above)
+        if MULTITASK_REJECTED_SET_MUST_NOT_CHANGE:
+          return dict(signature=MULTITASK_PARTIAL_SIG, what="multitask kernel: a rejected hyperparameter assignment changed the object (part of the rejected vector was taken)",
+                      input=inp, observed=rb, expected=list(cur), oracle="plain Python")
+        cur = rb
+      r = use("after a REJECTED assignment (the error was caught, the object is used on)")
+    if r:
+      return r
+  return None
 
 
 EPS = 2.3e-16
@@ -252,7 +441,7 @@ def radial_entry_points(k, cls, hp, x, z, noise, shift, fail, last):
   return None
 
 
-HISTORY_OPS = ("move", "refill", "scale", "dup", "hp", "scribble", "again")
+HISTORY_OPS = ("move", "refill", "scale", "dup", "hp", "badhp", "scribble", "again")
 
 
 def live_object(inp, k, st, fail, entry_points):
@@ -261,7 +450,8 @@ def live_object(inp, k, st, fail, entry_points):
     ["move", buf, i, delta]   one row of the caller's buffer moved in place        ["refill", buf, points]  the buffer refilled with a new point set
     ["scale", buf, s]         the buffer rescaled in place                        ["dup", buf, i, j]       row i overwritten with row j
     ["hp", values]            hyperparameters assigned on the live object         ["again"]                nothing changed, asked again
-    ["scribble"]              the caller overwrites the arrays the kernel returned last (they are the caller's)"""
+    ["scribble"]              the caller overwrites the arrays the kernel returned last (they are the caller's)
+    ["badhp", values]         an inadmissible vector assigned on the live object: HyperparameterInvalidError (caught), the object is used on"""
   r = entry_points(fail)
   if r:
     return r
@@ -280,6 +470,23 @@ def live_object(inp, k, st, fail, entry_points):
       st["hp"][:] = [float(v) for v in step[1]]
       if [float(v) for v in k.hyperparameters] != st["hp"]:
         return fail("hyperparameters do not read back as set", [float(v) for v in k.hyperparameters], list(st["hp"]))
+    elif op == "badhp":
+      from libsigopt.compute.covariance_base import HyperparameterInvalidError
+      try:
+        k.hyperparameters = numpy.array([float(v) for v in step[1]], dtype=float)
+        return fail("invalid hyperparameters accepted", dict(accepted=True, vector=step[1]), dict(accepted=False))
+      except HyperparameterInvalidError:
+        pass
+      rb = [float(v) for v in k.hyperparameters]
+      if not admissible(rb):
+        return fail("a live kernel holds inadmissible hyperparameters after a rejected assignment", rb, list(st["hp"]))
+      if rb != st["hp"]:
+        if inp["kind"] != "multi":
+          return fail("a rejected assignment changed the hyperparameters read back", rb, list(st["hp"]))
+        if MULTITASK_REJECTED_SET_MUST_NOT_CHANGE:
+          return dict(signature=MULTITASK_PARTIAL_SIG, what="multitask kernel: a rejected hyperparameter assignment changed the object (part of the rejected vector was taken)",
+                      input=inp, observed=rb, expected=list(st["hp"]), oracle="plain Python")
+        st["hp"][:] = rb      # the tensor kernel's partial take: admissible, and every entry point is now stated for what is read back
     elif op == "scribble":
       for arr in st["last"]:
         try:
@@ -304,6 +511,9 @@ def multi_oracle(inp, fail):
   if inp.get("life") == "reassigned":   # constructed with other values, then assigned
     k = MultitaskTensorCovariance(numpy.array([1.0] * len(hp)), getattr(cv, pc), getattr(cv, tc))
     k.hyperparameters = numpy.array(hp)
+  if inp.get("life") == "rejected":     # a vector with an inadmissible process variance was offered to the live object and refused
+    from lib import gpgen
+    k = gpgen.make_cov(dict(cls="multitask", phys=pc, task=tc, hp=hp, life="rejected"))
   if [float(v) for v in k.hyperparameters] != hp:
     return fail("hyperparameters do not read back as set", [float(v) for v in k.hyperparameters], hp)
   st = dict(x=numpy.array(inp["x"], dtype=float), z=numpy.array(inp["z"], dtype=float), noise=numpy.array(inp["noise"], dtype=float), hp=hp, last=[])
@@ -380,7 +590,7 @@ def gen_history(rng, n, m, newpt, newhp, phys_dim, delta_scale):
   """a life of the kernel object and of the caller's two point buffers (see live_object)"""
   steps = []
   for _ in range(rng.randint(1, 4)):
-    op = rng.choice(["move", "move", "refill", "refill", "scale", "dup", "hp", "scribble", "again"])
+    op = rng.choice(["move", "move", "refill", "refill", "scale", "dup", "hp", "badhp", "badhp", "scribble", "again"])
     buf = rng.choice(["z", "z", "x"])
     cnt = m if buf == "z" else n
     if op == "move":
@@ -393,6 +603,10 @@ def gen_history(rng, n, m, newpt, newhp, phys_dim, delta_scale):
       steps.append(["dup", buf, rng.randrange(cnt), rng.randrange(cnt)])
     elif op == "hp":
       steps.append(["hp", newhp()])
+    elif op == "badhp":
+      v = newhp()
+      v[rng.choice([0, rng.randrange(len(v)), len(v) - 1])] = rng.choice([0.0, -1.0, -v[0], float("nan"), float("inf"), float("-inf")])
+      steps.append(["badhp", [repr(float(t)) for t in v]])
     else:
       steps.append([op])
   return steps
@@ -420,7 +634,7 @@ def gen_multi(rng):
     base = x[0][:-1]
     z = [q + [rng.choice(tasks)] for q in far_ladder(rng, cls[0], hp[1:-1], base, m)]
     x = [x[0]] + [q + [rng.choice(tasks)] for q in far_ladder(rng, cls[0], hp[1:-1], base, n - 1)]
-  inp = dict(kind="multi", cls=cls, hp=hp, x=x, z=z, life=rng.choice(["fresh", "reassigned"]),
+  inp = dict(kind="multi", cls=cls, hp=hp, x=x, z=z, life=rng.choice(["fresh", "reassigned", "rejected"]),
              noise=[rng.choice([0.0, 1e-12, 1e-3, 1.0]) * hp[0] for _ in range(m)])
   if rng.random() < 0.4:
     inp["history"] = gen_history(rng, n, m, pt, newhp, dim, [1.0] * dim + [0.0])
@@ -434,6 +648,10 @@ def gen_input(rng):
     kind = rng.choice(["radial", "multi"])
     cls = rng.choice(KERNELS) if kind == "radial" else [rng.choice(DIFF), rng.choice(DIFF)]
     hp = gen_hp(rng, rng.randint(3, 5))
+    if rng.random() < 0.5:      # a live object: assignments (accepted and rejected), read-backs, uses
+      kind, cls, hp0, ops = gen_live(rng)
+      return dict(kind="hyper", k=kind, cls=list(cls) if kind == "multi" else cls, hp=[repr(float(x)) for x in hp0],
+                  ops=[[o[0]] + ([[repr(float(v)) for v in o[1]]] if o[0] == "set" else []) for o in ops])
     return dict(kind="hyper", k=kind, cls=cls, hp=[repr(x) for x in hp])
   dim = rng.randint(1, 12)
   cls = rng.choice(KERNELS)
@@ -467,7 +685,7 @@ def gen_input(rng):
     base = [hp[1 + d] * rng.uniform(-3, 3) for d in range(dim)]
     x = [base] + far_ladder(rng, cls, hp[1:], base, n - 1)
     z = far_ladder(rng, cls, hp[1:], base, m)
-  inp = dict(kind="kernel", cls=cls, hp=hp, x=x, z=z, life=rng.choice(["fresh", "fresh", "reassigned", "inplace", "readmod", "buffer_written", "assigned_written"]), noise=[rng.choice([0.0, 1e-12, 1e-3, 1.0]) * hp[0] for _ in range(m)],
+  inp = dict(kind="kernel", cls=cls, hp=hp, x=x, z=z, life=rng.choice(["fresh", "fresh", "reassigned", "inplace", "readmod", "rejected", "buffer_written", "assigned_written"]), noise=[rng.choice([0.0, 1e-12, 1e-3, 1.0]) * hp[0] for _ in range(m)],
              shift=[rng.uniform(-1, 1) * sc for _ in range(dim)])
   if not big and rng.random() < 0.4:
     inp["history"] = gen_history(rng, n, m, newpt, lambda: [10.0 ** rng.uniform(-6, 6)] + [10.0 ** rng.uniform(-3, 3) for _ in range(dim)], dim, [sc] * dim)
@@ -511,3 +729,13 @@ LEVEL_TEXT += ("; the searcher states the closed form entry-wise RELATIVELY in t
                "entry points again after every step of a life history of the kernel object and of the caller's two point buffers (a row moved / the buffer refilled / "
                "rescaled / a row duplicated IN PLACE and the same array object handed over again, hyperparameters re-assigned, the returned matrices overwritten by the caller, "
                "the same question asked twice)")
+
+# --- gap round B (seeded C03_m12): a rejected assignment on a LIVE kernel object
+LEVEL_TEXT += ("; live kernel objects (Model.Hyper: radial_assign / multitask_assign follow set_hyperparameters statement by statement, including what has been "
+               "assigned by the time HyperparameterInvalidError is raised): an assignment is accepted iff every entry is admissible, an accepted vector reads back, a "
+               "rejected assignment leaves a radial kernel unchanged in every field, after ANY sequence of assignments / read-backs / uses the kernel reads back exactly what "
+               "it computes with, that is admissible, and for a radial kernel it is the last accepted vector (theorems C03_hyper_live_*; op-sequence correspondence on "
+               "the running classes; searcher: inadmissible assignments inside the life histories, every entry point stated again afterwards)")
+LEVEL_NOTE += ("; for the tensor kernel 'a rejected assignment leaves the object unchanged' is REFUTED on the faithful model (C03_hyper_live_multitask_rejected_unchanged_refuted: "
+               "the process variance / physical length scales of a vector rejected for a later entry have already been assigned) - the object stays an admissible, coherent kernel, "
+               "which is what the weakest reading of 'rejected' asks; reported to the coordinator, switch MULTITASK_REJECTED_SET_MUST_NOT_CHANGE")
